@@ -43,7 +43,7 @@ impl GenCfg {
             max_nodes: 4 + rng.usize(36),
             hazard_pm: if rng.chance(1, 4) { 30 } else { 0 },
             alphabet: rng.usize(3) as u8,
-            path_safe_names: true,
+            path_safe_names: rng.chance(2, 3),
         }
     }
     pub fn small(rng: &mut Rng) -> GenCfg {
@@ -101,6 +101,30 @@ pub fn gen_string(rng: &mut Rng, cfg: &GenCfg, for_name: bool) -> String {
 }
 
 pub fn gen_name(rng: &mut Rng, cfg: &GenCfg, taken: &Map<String, Value>) -> String {
+    // sometimes a name that equals an existing sibling up to case, surrounding blanks or a
+    // look-alike character, or that looks like syntax
+    if cfg.alphabet > 0 && !taken.is_empty() && rng.chance(1, 12) {
+        let keys: Vec<&String> = taken.keys().collect();
+        let k = (*rng.pick(&keys)).clone();
+        let v = match rng.usize(6) {
+            0 => k.to_uppercase(),
+            1 => format!("{} ", k),
+            2 => format!(" {}", k),
+            3 => format!("{}\u{200b}", k),
+            4 => k.replace('a', "\u{0430}"),
+            _ => format!("{}_", k),
+        };
+        let v = if cfg.path_safe_names { v.replace(['.', '[', ']', '$'], "_") } else { v };
+        if !RESERVED.contains(&v.as_str()) && !taken.contains_key(&v) {
+            return v;
+        }
+    }
+    if !cfg.path_safe_names && rng.chance(1, 10) {
+        let v = rng.pick(&["$.a", "a.b", "[0]", "a[0]", "a.[1]", "$", ".", "..", "[", "]", "{}", "\"", "~", "_sd_", "...x", "x...", "_SD", "_sd_alg2"]).to_string();
+        if !taken.contains_key(&v) {
+            return v;
+        }
+    }
     for _ in 0..50 {
         let n = if cfg.alphabet == 0 || rng.chance(2, 3) { rng.pick(PLAIN_NAMES).to_string() } else { gen_string(rng, cfg, true) };
         let n = if cfg.path_safe_names { n.replace(['.', '[', ']', '$'], "_") } else { n };
@@ -113,7 +137,7 @@ pub fn gen_name(rng: &mut Rng, cfg: &GenCfg, taken: &Map<String, Value>) -> Stri
 }
 
 pub fn gen_number(rng: &mut Rng) -> Value {
-    match rng.usize(8) {
+    match rng.usize(9) {
         0 => json!(0),
         1 => json!(rng.below(100)),
         2 => json!(rng.next_u64()),
@@ -135,6 +159,7 @@ pub fn gen_number(rng: &mut Rng) -> Value {
                 json!((rng.below(1 << 30) as f64) / 256.0 - 1000.0)
             }
         }
+        7 => rng.pick(&[json!(-0.0), json!(100.0), json!(1e21), json!(1e-7), json!(0.1), json!(1.0e2), json!(9007199254740993u64), json!(-9007199254740993i64), json!(4294967296u64), json!(2147483648u64), json!(1)]).clone(),
         _ => json!((rng.below(2000) as f64) / 8.0 - 100.0),
     }
 }
@@ -251,8 +276,19 @@ pub fn all_paths(u: &Value, rng: &mut Rng) -> Vec<String> {
     out
 }
 
+fn names_path_safe(v: &Value) -> bool {
+    match v {
+        Value::Object(o) => o.iter().all(|(k, c)| !k.contains(['.', '[', ']', '$']) && names_path_safe(c)),
+        Value::Array(a) => a.iter().all(names_path_safe),
+        _ => true,
+    }
+}
+
 pub fn gen_strategy(rng: &mut Rng, u: &Value) -> Strat {
-    match rng.usize(8) {
+    // Custom paths are matched textually: only claim sets whose member names are free of path
+    // syntax get a Custom strategy
+    let n = if names_path_safe(u) { 8 } else { 6 };
+    match rng.usize(n) {
         0 => Strat::None,
         1 | 2 => Strat::Top,
         3..=5 => Strat::All,
